@@ -218,11 +218,25 @@ static T app_val(W v)
 }
 
 static sandbox_callback<int (*)(int), Sbx>* g_cb_owner;
+static W g_guest_fn_index = 0; // function-pointer representation of the guest function "guest_fn_int_int"
+static typename Abi::T_IntType guest_fn_int_int(typename Abi::T_IntType x) { return x; }
 
 // wrapper forms: 0 plain (tainted for pointers), 1 tainted, 2 tainted_opaque
 template<typename R, typename... A, size_t... I>
-static void one_call(const char* name, int form, const std::vector<W>& vals, W retv, std::index_sequence<I...>)
+static void one_call(const char* name, int form, const std::vector<W>& vals_in, W retv, std::index_sequence<I...>)
 {
+  // function-pointer parameters: form 0 passes the registered callback (its entry point must
+  // arrive), forms 1 / 2 pass the tainted / opaque ADDRESS OF A SANDBOX FUNCTION (its
+  // function-pointer representation - the table index on this backend - must arrive)
+  std::vector<W> vals = vals_in;
+  {
+    constexpr bool fnflags[] = { (std::is_pointer_v<A> && std::is_function_v<std::remove_pointer_t<A>>)..., false };
+    for (size_t k = 0; k < sizeof...(A); k++) {
+      if (fnflags[k] && form >= 1) {
+        vals[k] = g_guest_fn_index;
+      }
+    }
+  }
   g_seen = Seen{};
   g_ret_value = retv;
   g_abort_flag = false;
@@ -246,8 +260,15 @@ static void one_call(const char* name, int form, const std::vector<W>& vals, W r
     auto mk = [&](auto tag, size_t i) -> decltype(auto) {
       using T = typename decltype(tag)::type;
       constexpr bool is_fn = std::is_pointer_v<T> && std::is_function_v<std::remove_pointer_t<T>>;
-      if constexpr (is_fn) {
+      if constexpr (is_fn && F == 0) {
         return (*g_cb_owner); // sandbox_callback is move-only: passed as an lvalue
+      } else if constexpr (is_fn) {
+        auto tf = sb->template INTERNAL_get_sandbox_function_name<std::remove_pointer_t<T>>("guest_fn_int_int");
+        if constexpr (F == 2) {
+          return tf.to_opaque();
+        } else {
+          return tf;
+        }
       } else if constexpr (std::is_pointer_v<T>) {
         tainted<T, Sbx> t = vals[i] < 0 ? tainted<T, Sbx>(nullptr) : sb->UNSAFE_accept_pointer(app_val<T>(vals[i]));
         if constexpr (F == 2) {
@@ -574,11 +595,13 @@ int main(int argc, char** argv)
 #define REGCB(name, ...) reg_cb_sig<__VA_ARGS__>(#name);
   SIGS(REGCB)
   GEN_SIGS_LIST(REGCB)
+  g_exports.push_back({ "guest_fn_int_int", (void*)&guest_fn_int_int });
   static vm_library lib = { 1, g_exports };
   RS sandbox;
   sandbox.create_sandbox(&lib);
   sb = &sandbox;
   BASE = sandbox.get_sandbox_impl()->base;
+  g_guest_fn_index = (W)sandbox.get_sandbox_impl()->func_index("guest_fn_int_int");
   auto cb = sandbox.register_callback(app_cb);
   g_cb_owner = &cb;
   g_cb_entry = (W)cb.UNSAFE_sandboxed(sandbox);
